@@ -49,7 +49,13 @@ def _walk(ck: Checker) -> None:
     wh = walk_loops[0]
     root, files = [norm(t) for t in wh.ast.target.elts]
     bcalls = [c for c in walk_own(bt.node) if isinstance(c, ast.Call) and call_name(c) == "_build_files"]
-    ck.require(bool(bcalls) and all(norm(c.args[0]) == root and norm(c.args[1]) == files for c in bcalls), "C02.walk", bt, wh, "files of a walk step are built with that step's root", "_build_files is not called with the (root, files) of the same walk step", construct="_build_files(root, files, ...)")
+    bf = prog.func("hashfile.build", "_build_files")
+
+    def _a(c, i):
+        a = get_arg(c, bf, bf.pos_params[i], pos=i) if len(bf.pos_params) > i else None
+        return norm(a) if a is not None else None
+
+    ck.require(bool(bcalls) and all(_a(c, 0) == root and _a(c, 1) == files for c in bcalls), "C02.walk", bt, wh, "files of a walk step are built with that step's root", "_build_files is not called with the (root, files) of the same walk step", construct="_build_files(root, files, ...)")
     rows = [h for h in g.nodes.values() if h.kind == "for" and wh.id in h.loops and h.id != wh.id and isinstance(h.ast.iter, ast.Call) and is_method_call(h.ast.iter, "items")]
     ck.floor("C02.walk", len(rows), 1, "row loop over the built files")
     rh = rows[0]
